@@ -37,15 +37,16 @@ import (
 var zooNames = []string{"ntriples", "nquads", "turtle", "trig", "rdfxml", "rdfjson", "jsonld", "htmlrdfa", "htmlmicrodata", "htmljsonld", "htmldefaults"}
 
 type zooOpts struct {
-	offsets  bool
-	init     cursorio.TextOffset
-	base     string // "" = none
-	lax      bool   // lax JSON tokenizer
-	mode     string // JSON-LD processing mode ("" = default)
-	prefixes iri.PrefixMappingList
-	sizes    []int // read chunk sizes; nil = bytes.Reader
-	fail     bool  // reader ends with an injected error instead of io.EOF
-	direct   bool
+	offsets       bool
+	init          cursorio.TextOffset
+	base          string // "" = none
+	lax           bool   // lax JSON tokenizer
+	mode          string // JSON-LD processing mode ("" = default)
+	prefixes      iri.PrefixMappingList
+	sizes         []int // read chunk sizes; nil = bytes.Reader
+	fail          bool  // reader ends with an injected error instead of io.EOF
+	direct        bool
+	itemtypeVocab bool // Microdata: property names relative to the item type, as the combined HTML decoder configures it
 }
 
 type zooIter interface {
@@ -178,6 +179,9 @@ func zooNew(name string, data []byte, o zooOpts) (zooIter, error) {
 		case "htmlrdfa":
 			return htmlrdfa.NewDecoder(doc)
 		case "htmlmicrodata":
+			if o.itemtypeVocab {
+				return htmlmicrodata.NewDecoder(doc, htmlmicrodata.DecoderConfig{}.SetVocabularyResolver(htmlmicrodata.ItemtypeVocabularyResolver))
+			}
 			return htmlmicrodata.NewDecoder(doc)
 		default:
 			return htmljsonld.NewDecoder(doc)
